@@ -901,6 +901,10 @@ func (w *sketchWorld) checkExactStats(r *realSketch, p *SkObs, answers []float64
 		if errMin == nil || errMax == nil {
 			return &skDiff{"exact", "GetMinValue/GetMaxValue of an empty sketch did not return an error", nil}
 		}
+		if gs := ex.GetSum(); gs != 0 {
+			// nothing absorbed: the total of |value*weight| is 0, so the sum must be exactly 0
+			return &skDiff{"exact", fmt.Sprintf("exact sum of a sketch that holds nothing is %v", gs), gs}
+		}
 		return nil
 	}
 	if errMin != nil || errMax != nil {
